@@ -114,6 +114,26 @@ pub fn short_xl_unicode_string(s: &str, wide: Option<bool>, rng: &mut Rng) -> Ve
     v
 }
 
+/// `n` distinct short strings ("s" + the index in base 36; index 0 is the empty string) for shared-string tables
+/// larger than 65 536 entries: a LABELSST index read modulo 2^16 then shows another text
+pub fn big_sst_strings(n: usize) -> Vec<String> {
+    (0..n)
+        .map(|i| {
+            if i == 0 {
+                return String::new();
+            }
+            let mut v = vec![];
+            let mut k = i;
+            while k > 0 {
+                v.push(std::char::from_digit((k % 36) as u32, 36).unwrap());
+                k /= 36;
+            }
+            v.push('s');
+            v.iter().rev().collect()
+        })
+        .collect()
+}
+
 /// cached result of a FORMULA record
 #[derive(Clone, Debug, PartialEq)]
 pub enum Cached {
